@@ -4,7 +4,7 @@
 (* One trace line per executed case (see harness/storeapis/common.go):     *)
 (*   in.world, in.req   as in C08Trace; the SAME selectors, time range and *)
 (*                      replica-label list go into all three calls         *)
-(*   tsdb / bucket / proxy =                                               *)
+(*   tsdb / bucket / proxy / prom (sidecar) / recv (receiver) =            *)
 (*     [series: [kind, code, ls: label-pair sequence per frame, ...],      *)
 (*      names:  [kind, code, vals: names returned by LabelNames],          *)
 (*      values: <<[n: label name, kind, code, vals: LabelValues(n)], ...>>]*)
@@ -15,12 +15,18 @@
 (***************************************************************************)
 EXTENDS TraceLib, StoreAPIs
 
-Kinds == <<"tsdb", "bucket", "proxy">>
+Kinds == <<"tsdb", "bucket", "proxy", "prom", "recv">>
+NK == 5
 
 SeriesOf(j) == { [l |-> LsOf(s.l), slots |-> SaRange(s.slots)] : s \in SaRange(j.series) }
 SourceOf(j) == [ext |-> LsOf(j.ext), series |-> SeriesOf(j)]
 HeadOf(e) == SourceOf(e.in.world.head)
 BlocksOf(e) == { SourceOf(b) : b \in SaRange(e.in.world.blocks) }
+(* phase 2: receiver tenants (external labels = the head's, overridden by tlabel = tenant id) *)
+TenantsOf(e) == { [ext |-> TenantExt(LsOf(e.in.world.head.ext), e.in.world.recv.tlabel, t.id), series |-> SeriesOf(t)] :
+                    t \in SaRange(e.in.world.recv.tenants) }
+WorldOf(e) == [W |-> e.in.world.W, head |-> HeadOf(e), blocks |-> BlocksOf(e), tenants |-> TenantsOf(e)]
+OptOf(e) == [skip |-> e.in.cfg.skip, samples |-> e.in.cfg.samples, pmatch |-> ~e.in.cfg.promold]
 ReqOf(e) == [ms |-> SaRange(e.in.req.ms), rl |-> SaRange(e.in.req.rl), mint |-> e.in.req.mint, maxt |-> e.in.req.maxt]
 
 Tag(kind, clauses) == { kind \o ":" \o c : c \in clauses }
@@ -49,20 +55,19 @@ JudgeStore(e, kind) ==
         (IF o.series.kind = "panic" \/ o.names.kind = "panic" \/ \E i \in DOMAIN o.values : o.values[i].kind = "panic"
            THEN {"store-panicked"} ELSE {}))
 
-Judge(e) == UNION { JudgeStore(e, Kinds[i]) : i \in 1..3 }
+Judge(e) == UNION { JudgeStore(e, Kinds[i]) : i \in 1..NK }
 
 (* Model conformance (never a verdict): exact prediction of the three answers. *)
 DriftStore(e, kind) ==
     LET o == e[kind]
-        W == e.in.world.W
-        p == AlgoSeries(kind, W, HeadOf(e), BlocksOf(e), ReqOf(e))
+        p == AlgoSeriesW(kind, WorldOf(e), ReqOf(e), OptOf(e))
     IN \/ (o.series.kind # "panic" /\ ~( (p.kind = "invalid") = (o.series.code = "InvalidArgument")
                                         /\ ReturnedSeries(o) = p.out ))
-       \/ (o.names.kind = "ok" /\ ReturnedNames(o) # AlgoNames(kind, W, HeadOf(e), BlocksOf(e), ReqOf(e)))
+       \/ (o.names.kind = "ok" /\ ReturnedNames(o) # AlgoNamesW(kind, WorldOf(e), ReqOf(e), OptOf(e)))
        \/ \E i \in DOMAIN o.values :
             o.values[i].kind = "ok" /\
-            SaRange(o.values[i].vals) # AlgoValues(kind, W, HeadOf(e), BlocksOf(e), ReqOf(e), o.values[i].n)
-Drift(e) == \E i \in 1..3 : DriftStore(e, Kinds[i])
+            SaRange(o.values[i].vals) # AlgoValuesW(kind, WorldOf(e), ReqOf(e), o.values[i].n, OptOf(e))
+Drift(e) == \E i \in 1..NK : DriftStore(e, Kinds[i])
 
 VARIABLE l
 TraceInit == l = 1
